@@ -85,6 +85,77 @@ static void finish(Out &h, Groups &g) {
 // terminated exact copies for C-string forms
 struct Z { Exact<char> e; Z(const Bytes &b) : e((b + '\0').data(), b.size() + 1) {} const char *p() const { return e.p; } };
 
+// --------------------------------------------------------------- extras ---
+// Beyond the listed properties (X01): element access, iteration, fill, boolean text.
+template <class T> static void access_forms(Groups &g, const char *tn, const Bytes &s, unsigned long long idx) {
+    std::basic_string<T> w; for (unsigned char c : s) w += (T)c;
+    Exact<T> e(w.data(), w.size());
+    ST::buffer<T> b(e.p, e.n); const ST::buffer<T> &cb = b;
+    std::string t = tn;
+    typedef typename std::make_unsigned<T>::type UT;
+    auto u = [](T x) { return jint((long long)(UT)x); };
+    g.run("at", (t + ".at(i)").c_str(), [&] { return u(b.at((size_t)idx)); });
+    g.run("at", (t + ".at(i) const").c_str(), [&] { return u(cb.at((size_t)idx)); });
+    if (idx <= s.size()) { g.run("index", (t + "[i]").c_str(), [&] { return u(b[(size_t)idx]); }); g.run("index", (t + "[i] const").c_str(), [&] { return u(cb[(size_t)idx]); }); }
+    g.run("front", (t + ".front()").c_str(), [&] { return u(b.front()); });
+    g.run("front", (t + ".front() const").c_str(), [&] { return u(cb.front()); });
+    g.run("back", (t + ".back()").c_str(), [&] { return u(b.back()); });
+    g.run("back", (t + ".back() const").c_str(), [&] { return u(cb.back()); });
+    auto lst = [](auto first, auto last) { std::string r = "["; bool f = true; for (; first != last; ++first) { if (!f) r += ','; f = false; r += std::to_string((unsigned long)(UT)(T)*first); } return r + "]"; };
+    g.run("iter", (t + " begin..end").c_str(), [&] { return lst(b.begin(), b.end()); });
+    g.run("iter", (t + " cbegin..cend").c_str(), [&] { return lst(cb.cbegin(), cb.cend()); });
+    g.run("iter", (t + " const begin..end").c_str(), [&] { return lst(cb.begin(), cb.end()); });
+    g.run("riter", (t + " rbegin..rend").c_str(), [&] { return lst(b.rbegin(), b.rend()); });
+    g.run("riter", (t + " crbegin..crend").c_str(), [&] { return lst(cb.crbegin(), cb.crend()); });
+    g.run("size", (t + ".size()").c_str(), [&] { return jint((long long)cb.size()); });
+    g.run("empty", (t + ".empty()").c_str(), [&] { return jint(cb.empty()); });
+}
+static void op_access(const Bytes &s, unsigned long long idx) {
+    if (!SH.take()) return;
+    Out h; begin(h, "access"); h.c(',').k("s").s(jbytes(s)).c(',').k("idx").s(jnum(idx));
+    set_cur(SH.idx - 1, h.b + "}");
+    Groups g; string ss = S(s);
+    auto u = [](char x) { return jint((unsigned char)x); };
+    g.run("at", "string.at(i)", [&] { return u(ss.at((size_t)idx)); });
+    if (idx <= s.size()) g.run("index", "string[i]", [&] { return u(ss[(size_t)idx]); });
+    g.run("front", "string.front()", [&] { return u(ss.front()); });
+    g.run("back", "string.back()", [&] { return u(ss.back()); });
+    auto lst = [](auto first, auto last) { std::string r = "["; bool f = true; for (; first != last; ++first) { if (!f) r += ','; f = false; r += std::to_string((unsigned)(unsigned char)*first); } return r + "]"; };
+    g.run("iter", "string begin..end", [&] { return lst(ss.begin(), ss.end()); });
+    g.run("iter", "string cbegin..cend", [&] { return lst(ss.cbegin(), ss.cend()); });
+    g.run("iter", "string range-for", [&] { std::string r = "["; bool f = true; for (char c : ss) { if (!f) r += ','; f = false; r += std::to_string((unsigned)(unsigned char)c); } return r + "]"; });
+    g.run("riter", "string rbegin..rend", [&] { return lst(ss.rbegin(), ss.rend()); });
+    g.run("riter", "string crbegin..crend", [&] { return lst(ss.crbegin(), ss.crend()); });
+    g.run("size", "string.size()", [&] { return jint((long long)ss.size()); });
+    g.run("empty", "string.empty()", [&] { return jint(ss.empty()); });
+    access_forms<char>(g, "char_buffer", s, idx);
+    access_forms<char16_t>(g, "utf16_buffer", s, idx);
+    access_forms<char32_t>(g, "utf32_buffer", s, idx);
+    access_forms<wchar_t>(g, "wchar_buffer", s, idx);
+    finish(h, g);
+}
+static void op_fill(unsigned long long count, int ch) {
+    if (!SH.take()) return;
+    Out h; begin(h, "fill"); h.c(',').k("n").i((long long)count).c(',').k("ch").i(ch);
+    set_cur(SH.idx - 1, h.b + "}");
+    Groups g;
+    g.run("fill", "string::fill(n,c)", [&] { return jstr(string::fill((size_t)count, (char)ch)); });
+    g.run("fill", "buffer(n,c)", [&] { ST::char_buffer b((size_t)count, (char)ch); return jbytes(Bytes(b.data(), b.size())); });
+    g.run("fill", "allocate(n,c)", [&] { ST::char_buffer b; b.allocate((size_t)count, ch); return jbytes(Bytes(b.data(), b.size())); });
+    finish(h, g);
+}
+static void op_bool(const Bytes &s) {
+    if (!SH.take()) return;
+    Z z(s); char *e; long lv = strtol(z.p(), &e, 0); long consumed = e - z.p();
+    Out h; begin(h, "tobool"); h.c(',').k("s").s(jbytes(s)).c(',').k("libc_nonzero").i((int)lv != 0).c(',').k("consumed").i(consumed);
+    set_cur(SH.idx - 1, h.b + "}");
+    Groups g; string ss = S(s);
+    g.run("val", "to_bool()", [&] { return jint(ss.to_bool()); });
+    g.run("valr", "to_bool(result)", [&] { ST::conversion_result r; bool v = ss.to_bool(r); return "[" + jint(v) + "," + jint(r.ok()) + "," + jint(r.full_match()) + "]"; });
+    g.run("from", "from_bool(to_bool())", [&] { return jstr(string::from_bool(ss.to_bool())); });
+    finish(h, g);
+}
+
 // ------------------------------------------------------------------ C06 ---
 template <class T> static std::basic_string<T> widen(const Bytes &b) {
     std::basic_string<T> r; for (unsigned char c : b) r += (T)c; return r;
@@ -509,6 +580,15 @@ int main(int argc, char **argv) {
             if (rng.below(4) == 0) b = a.substr(0, rng.below(a.size() + 1));
             op_cmp(a, b); op_cmpn(a, b, rng.below(26)); op_case(a);
         }
+    } else if (gen == "x01") {
+        size_t L = ST_MAX_SSO_LENGTH;
+        std::vector<Bytes> subj = strs;
+        for (size_t n : {L - 1, L, L + 1, (size_t)40}) subj.push_back(size_class(n, 3));
+        for (auto &s : subj) for (unsigned long long i : std::vector<unsigned long long>{0, 1, s.size() ? s.size() - 1 : 0, s.size(), s.size() + 1, 1ull << 31, 1ull << 32, ~0ull}) op_access(s, i);
+        for (unsigned long long n : std::vector<unsigned long long>{0, 1, 2, L - 1, L, L + 1, 40, 300}) for (int ch : {0, (int)'x', 0x80, 0xFF}) op_fill(n, ch);
+        for (const char *t : {"", "true", "TRUE", "tRuE", "false", "False", "falsey", "truex", " true", "true ", "0", "1", "-1", "00", "0x0", "0x10", "08", "yes", "no", "2147483648", "4294967296", "t", "f", "1e0", " 7", "\t0"}) op_bool(t);
+        op_bool(Bytes("true\0x", 6)); op_bool(Bytes("\0true", 5)); op_bool(Bytes("1\0", 2));
+        for (long long k = 0; k < count; ++k) { Bytes s = rand_bytes(rng, {116, 114, 117, 101, 102, 97, 108, 115, 84, 82, 48, 49, 32, 120, 45}, 6); op_bool(s); op_access(s, rng.below(8)); }
     } else if (gen == "c07") {
         for (auto &hs : strs) for (auto &n : needles) for (int ci = 0; ci < 2; ++ci) {
             for (unsigned long long st = 0; st <= hs.size() + 1; ++st) op_find(hs, n, st, ci);
